@@ -117,6 +117,7 @@ type c17Result struct {
 	Viol        *c17Viol
 	Harness     error
 	Unreachable string // why the target could not be reached exactly ("" = reached)
+	Dur         time.Duration
 }
 
 func c17Class(pages, lock int) string {
@@ -136,13 +137,14 @@ func c17Class(pages, lock int) string {
 }
 
 type c17Runner struct {
-	s    *scn.Scn
-	lock int
-	res  *c17Result
-	stop bool
-	full  bool           // the last operation was followed by the full oracle (restore comparison included)
-	final bool           // the generator has finished: the closing oracle always restores
-	seen map[string]bool // LTX files already decoded and found clean (files are immutable once renamed into place)
+	s     *scn.Scn
+	lock  int
+	res   *c17Result
+	stop  bool
+	grew  bool            // the generator executed at least one growing operation
+	full  bool            // the last operation was followed by the full oracle (restore comparison included)
+	final bool            // the generator has finished: the closing oracle always restores
+	seen  map[string]bool // LTX files already decoded and found clean (files are immutable once renamed into place)
 }
 
 func (r *c17Runner) fail(kind, msg string) {
@@ -360,6 +362,7 @@ func (r *c17Runner) grow(to int) {
 		if cur < r.lock && to >= r.lock {
 			rem-- // the lock page is skipped by the allocator
 		}
+		r.grew = true
 		if rem >= 4 {
 			r.do("WN:" + strconv.Itoa(rem-2))
 		} else {
@@ -401,9 +404,8 @@ func (r *c17Runner) generate(sp c17Spec, T int) {
 			k--
 		}
 		if k >= 1 {
+			r.grew = true
 			r.do("WN:" + strconv.Itoa(k))
-		} else {
-			r.res.Unreachable = fmt.Sprintf("database already has %d pages after litestream's first sync", cur)
 		}
 		r.do("SW")
 		r.mark()
@@ -512,6 +514,8 @@ func c17TargetPages(sp c17Spec) (int, bool) {
 // c17Run executes one scenario (generator or literal op list).
 func c17Run(sp c17Spec) *c17Result {
 	res := &c17Result{Spec: sp, Lock: c17Lock(sp.PageSize)}
+	t0 := time.Now()
+	defer func() { res.Dur = time.Since(t0) }()
 	cfg := cfgWith(func(c *scn.Config) {
 		c.PageSize = sp.PageSize
 		c.AutoVacuum = sp.AV
@@ -539,6 +543,9 @@ func c17Run(sp c17Spec) *c17Result {
 			return res
 		}
 		r.generate(sp, T)
+		if !r.stop && !r.grew && res.MarkedPages > T {
+			res.Unreachable = fmt.Sprintf("the database has %d pages before any growth", res.MarkedPages)
+		}
 	}
 	if !r.stop {
 		// every scenario ends in an acknowledged state that has been through the full oracle
@@ -591,12 +598,18 @@ func c17Setup() error {
 	if ltx.PENDING_BYTE != c17ScaledPending {
 		return fmt.Errorf("this binary was built with ltx.PENDING_BYTE = 0x%x; `c17` needs the scaled build (tools/build_c17.sh <repo> <out>), `c17real` the unscaled one", int64(ltx.PENDING_BYTE))
 	}
-	old := c17PendingByte(c17ScaledPending)
-	if old != c17RealPending && old != c17ScaledPending {
-		return fmt.Errorf("SQLite's pending byte was 0x%x before scaling", old)
-	}
-	if cur := c17PendingByte(0); cur != c17ScaledPending {
-		return fmt.Errorf("SQLite's pending byte is 0x%x after SQLITE_TESTCTRL_PENDING_BYTE", cur)
+	if os.Getenv("C17_NO_SQLITE_SCALE") == "1" {
+		// negative control of the guards: SQLite keeps 0x40000000 while ltx/litestream use 0x10000; the run must
+		// end as a harness error (SQLite stores row payload on what litestream takes for the lock page)
+		fmt.Fprintln(os.Stderr, "c17: C17_NO_SQLITE_SCALE=1: SQLite is NOT scaled (guard demonstration)")
+	} else {
+		old := c17PendingByte(c17ScaledPending)
+		if old != c17RealPending && old != c17ScaledPending {
+			return fmt.Errorf("SQLite's pending byte was 0x%x before scaling", old)
+		}
+		if cur := c17PendingByte(0); cur != c17ScaledPending {
+			return fmt.Errorf("SQLite's pending byte is 0x%x after SQLITE_TESTCTRL_PENDING_BYTE", cur)
+		}
 	}
 	for _, ps := range c17PageSizes {
 		if got, want := int(ltx.LockPgno(uint32(ps))), c17Lock(ps); got != want {
@@ -613,6 +626,7 @@ func c17(args []string) int {
 		fmt.Fprintln(os.Stderr, "c17: harness error:", err)
 		return 2
 	}
+	defer os.RemoveAll(filepath.Join(scn.ScratchRoot, fmt.Sprintf("lsmc-%d", os.Getpid())))
 	rep := ev.NewReporter("C17")
 	if p := replayArg(args); p != "" {
 		return c17Replay(rep, p)
@@ -634,31 +648,28 @@ func c17(args []string) int {
 	}
 
 	// ---- enumeration -------------------------------------------------------------------------------------
-	var specs []c17Spec
+	type c17Group struct {
+		PS   int
+		AV   string
+		Path string
+	}
+	var groups []c17Group
 	enumerated, aliased := 0, 0
 	for _, ps := range c17PageSizes {
 		for _, av := range []string{"NONE", "INCREMENTAL"} {
 			for _, p := range c17Paths {
-				for _, tg := range c17Targets {
-					enumerated++
-					if tg.Off == 0 {
-						// SQLite never ends a database on the lock page; the nearest reachable size is lock+1,
-						// which is the next target: same scenario, not run twice
-						aliased++
-						continue
-					}
-					specs = append(specs, c17Spec{PageSize: ps, AV: av, Path: p, Target: tg.Name})
-				}
+				groups = append(groups, c17Group{ps, av, p})
 			}
 		}
 	}
 	budget := ev.Budget(10*time.Minute, 30*time.Minute)
 	var (
-		mu      sync.Mutex
-		results []*c17Result
-		cut     bool
+		mu           sync.Mutex
+		results      []*c17Result
+		cut          bool
+		skippedBelow int
 	)
-	jobs := make(chan c17Spec)
+	jobs := make(chan c17Group)
 	var wg sync.WaitGroup
 	workers := 4
 	if n, err := strconv.Atoi(os.Getenv("C17_WORKERS")); err == nil && n > 0 {
@@ -668,32 +679,58 @@ func c17(args []string) int {
 		wg.Add(1)
 		go func() {
 			defer wg.Done()
-			for sp := range jobs {
-				// a scenario that misses its target size is re-generated with a corrected growth (at most 3 times);
-				// every attempt is a complete scenario and goes through the same oracle
-				T, _ := c17TargetPages(sp)
-				prev := ""
-				for attempt := 0; attempt < 4; attempt++ {
-					res := c17Run(sp)
+			for g := range jobs {
+				// targets in ascending order; once a scenario shows that the database is already larger than its
+				// target before any growth, every target up to that size yields the same operation list: not re-run
+				floor := 0
+				for _, tg := range c17Targets {
 					mu.Lock()
-					results = append(results, res)
+					enumerated++
 					mu.Unlock()
-					ops := strings.Join(res.Ops, " ")
-					if res.Viol != nil || res.Harness != nil || res.Unreachable != "" || res.MarkedPages == T || res.MarkedPages == 0 || ops == prev {
-						break
+					if tg.Off == 0 {
+						// SQLite never ends a database on the lock page; the nearest reachable size is lock+1,
+						// which is the next target: same scenario, not run twice
+						mu.Lock()
+						aliased++
+						mu.Unlock()
+						continue
 					}
-					prev = ops
-					sp.Adj += T - res.MarkedPages
+					sp := c17Spec{PageSize: g.PS, AV: g.AV, Path: g.Path, Target: tg.Name}
+					T, _ := c17TargetPages(sp)
+					if T >= 2 && T <= floor {
+						mu.Lock()
+						skippedBelow++
+						mu.Unlock()
+						continue
+					}
+					// a scenario that misses its target size is re-generated with a corrected growth (at most 3
+					// times); every attempt is a complete scenario and goes through the same oracle
+					prev := ""
+					for attempt := 0; attempt < 4; attempt++ {
+						res := c17Run(sp)
+						mu.Lock()
+						results = append(results, res)
+						mu.Unlock()
+						if res.Unreachable != "" && res.Unreachable != "impossible" && res.MarkedPages > floor {
+							floor = res.MarkedPages
+						}
+						ops := strings.Join(res.Ops, " ")
+						if res.Viol != nil || res.Harness != nil || res.Unreachable != "" || res.MarkedPages == T || res.MarkedPages == 0 || ops == prev {
+							break
+						}
+						prev = ops
+						sp.Adj += T - res.MarkedPages
+					}
 				}
 			}
 		}()
 	}
-	for _, sp := range specs {
+	for _, g := range groups {
 		if t.Since() > budget {
 			cut = true
 			break
 		}
-		jobs <- sp
+		jobs <- g
 	}
 	close(jobs)
 	wg.Wait()
@@ -712,6 +749,31 @@ func c17(args []string) int {
 	oracles, restores, ltxFiles, ltxSpan, snapSpan := 0, 0, 0, 0, 0
 	var harnessErr error
 	nViol := 0
+	if os.Getenv("C17_TIMING") != "" {
+		type agg struct {
+			n int
+			d time.Duration
+		}
+		byPS, byPath := map[int]*agg{}, map[string]*agg{}
+		for _, res := range results {
+			if byPS[res.Spec.PageSize] == nil {
+				byPS[res.Spec.PageSize] = &agg{}
+			}
+			if byPath[res.Spec.Path] == nil {
+				byPath[res.Spec.Path] = &agg{}
+			}
+			byPS[res.Spec.PageSize].n++
+			byPS[res.Spec.PageSize].d += res.Dur
+			byPath[res.Spec.Path].n++
+			byPath[res.Spec.Path].d += res.Dur
+		}
+		for _, ps := range c17PageSizes {
+			fmt.Fprintf(os.Stderr, "timing ps=%d runs=%d total=%v\n", ps, byPS[ps].n, byPS[ps].d)
+		}
+		for _, p := range c17Paths {
+			fmt.Fprintf(os.Stderr, "timing path=%s runs=%d total=%v\n", p, byPath[p].n, byPath[p].d)
+		}
+	}
 	for _, res := range results {
 		if res.Unreachable == "impossible" {
 			impossible++
@@ -785,7 +847,7 @@ func c17(args []string) int {
 				nViol++
 				fc := fc
 				rep.Report(&ev.Violation{Kind: v.Kind, Signature: c17FillSignature(v, fc), Detail: c17Detail{
-					c17Spec: c17Spec{PageSize: ps, AV: "-", Path: "j:growth-fill-direct", Target: c17Class(int(fc.Commit), fc.Lock), Fill: &fc},
+					c17Spec:  c17Spec{PageSize: ps, AV: "-", Path: "j:growth-fill-direct", Target: c17Class(int(fc.Commit), fc.Lock), Fill: &fc},
 					LockPgno: fc.Lock, Message: v.Msg,
 					Geometry: fmt.Sprintf("scaled: pending byte 0x%x in ltx", c17ScaledPending),
 				}})
@@ -876,24 +938,25 @@ func c17(args []string) int {
 			"oracle after every litestream operation: no error, no LTX file at any level (replica and local staging) contains the lock page, full snapshots spanning it have commit-1 pages; after every acknowledged SW and every compaction: restore == source on every page (C01's _litestream_seq page carve-out), same size, lock page all zero in source and restore, integrity_check ok. " +
 			"Layer 2 (path j:growth-fill-direct): DB.writeLTXFromWAL called directly on synthetic database/WAL files for every page size x prevCommit in lock-3..lock+1 x commit up to lock+3 x {no / all / only the last / all but the last / every other} growth page present in the WAL; oracle: no error, output pages == WAL pages + (prevCommit,commit] minus the lock page, WAL content over database-file content. " +
 			"evaluations = distinct (configuration, executed operation list) scenarios + layer-2 calls; distinct_nontrivial = distinct (page size, size class at target, path, auto_vacuum) combinations whose scenario had the lock page strictly inside the committed range at an oracle point, plus distinct layer-2 (page size, prevCommit class, commit class, WAL pattern) whose fill range spans the lock page",
-		"samples":                              samples,
-		"exhaustive":                           !cut,
-		"enumerated_cases":                     enumerated,
-		"cases_size_lock_aliased_to_lock+1":    aliased,
-		"scenario_runs":                        len(results),
-		"impossible_cases":                     impossible,
-		"cases_target_unreachable":             unreachable,
-		"scenarios_at_exact_target":            exactHits,
-		"oracle_evaluations":                   oracles,
-		"restore_comparisons":                  restores,
-		"ltx_files_decoded":                    ltxFiles,
-		"ltx_files_spanning_lock_page":         ltxSpan,
-		"snapshot_files_spanning_lock_page":    snapSpan,
-		"scenarios_with_lock_page_inside":      insideList,
-		"growth_fill_direct_calls":             fillCases,
+		"samples":                                     samples,
+		"exhaustive":                                  !cut,
+		"enumerated_cases":                            enumerated,
+		"cases_size_lock_aliased_to_lock+1":           aliased,
+		"scenario_runs":                               len(results),
+		"impossible_cases":                            impossible,
+		"cases_target_unreachable":                    unreachable + skippedBelow,
+		"cases_not_rerun_same_operation_list":         skippedBelow,
+		"scenarios_at_exact_target":                   exactHits,
+		"oracle_evaluations":                          oracles,
+		"restore_comparisons":                         restores,
+		"ltx_files_decoded":                           ltxFiles,
+		"ltx_files_spanning_lock_page":                ltxSpan,
+		"snapshot_files_spanning_lock_page":           snapSpan,
+		"scenarios_with_lock_page_inside":             insideList,
+		"growth_fill_direct_calls":                    fillCases,
 		"growth_fill_direct_calls_spanning_lock_page": fillSpanning,
-		"growth_fill_direct_distinct_classes":  len(fillClasses),
-		"achieved_pagesize_path_sizeclass[av]": achieved,
+		"growth_fill_direct_distinct_classes":         len(fillClasses),
+		"achieved_pagesize_path_sizeclass[av]":        achieved,
 	}
 	assumptions := []string{
 		"scaled geometry: trusted base is that SQLite consults only its sqlite3PendingByte variable (set with SQLITE_TESTCTRL_PENDING_BYTE before any database is opened), ltx only its PENDING_BYTE constant (module copy with that one line changed) and litestream only ltx.LockPgno plus sqlitePendingByte in internal/lock_unix.go (build overlay, one line changed); litestream's db.go/replica.go/compactor code is compiled unmodified",
@@ -928,8 +991,8 @@ func c17(args []string) int {
 		fmt.Fprintln(os.Stderr, "c17: write evidence:", err)
 		return 2
 	}
-	fmt.Printf("C17: %d scenarios (%d runs, %d enumerated cases, %d impossible), %d with the lock page inside, %d distinct non-trivial combinations, %d LTX files decoded (%d spanning the lock page), %.1fs\n",
-		evaluations, len(results), enumerated, impossible, nInside, len(nontrivial), ltxFiles, ltxSpan, t.S())
+	fmt.Printf("C17: %d distinct scenarios (%d runs, %d enumerated cases, %d impossible), %d with the lock page inside; %d direct growth-fill calls (%d spanning the lock page); %d distinct non-trivial combinations, %d LTX files decoded (%d spanning the lock page), %.1fs\n",
+		evaluations-fillCases, len(results), enumerated, impossible, nInside, fillCases, fillSpanning, len(nontrivial), ltxFiles, ltxSpan, t.S())
 	if rc := rep.Finish(); rc != 0 {
 		return rc
 	}
@@ -1178,6 +1241,7 @@ func c17SpawnReal() (map[string]any, int) {
 // c17real: page size 65536 (lock page 16385), unmodified constants everywhere.
 func c17real(args []string) int {
 	t := ev.Start()
+	defer os.RemoveAll(filepath.Join(scn.ScratchRoot, fmt.Sprintf("lsmc-%d", os.Getpid())))
 	out := map[string]any{"page_size": 65536}
 	emit := func(code int) int {
 		out["wall_s"] = t.S()
